@@ -2,7 +2,7 @@
 import ast
 import itertools
 
-from .common import (ctx, family, returns, calls_in_ctx, reach_from_succ, site, srcs_text, truthy_label, resolve_call)
+from .common import (ctx, family, returns, calls_in_ctx, reach_from_succ, site, srcs_text, truthy_label, resolve_call, test_awaited_call, full_text, inline_ast)
 from ..flow import callee_attr
 from ..loader import AnalysisError, norm
 from ..verdict import EnumDomain, BoolDomain, enum_members, accepting_set, pruned_edges, member_of
@@ -245,7 +245,11 @@ def run(R):
     R.need(cbs1, 'v1 submit_interest: no handler invocation')
     bd = BoolDomain()
     var1 = _verdict_var_bool(sub1)
-    acc = accepting_set(sub1, var1, bd, cbs1)
+    # verdict values under which the handler is reached *after the validator was consulted* (paths of unsigned Interests, which never
+    # consult it, are judged by the signed-test rule below)
+    vstarts = [d for (d, v) in verdict_defs(sub1, cbs1, var1) if isinstance(v, ast.AST) and awaited_call(v) is not None]
+    acc = sorted({x for d in vstarts for x in accepting_set(sub1, var1, bd, cbs1, start=d)}, key=lambda b: not b) if vstarts \
+        else accepting_set(sub1, var1, bd, cbs1)
     inst = sub1.qual + ' :: accepting set of ' + var1
     if acc != [True]:
         R.fail('C05.MPT.3', inst, sub1.qual, cbs1[0].ast, f'handler is invoked for verdict values {acc}; only a truthy verdict may',
@@ -297,8 +301,9 @@ def run(R):
     vtests = []
     for n in w.cfg.nodes:
         if n.kind == 'test':
-            c = awaited_call(n.ast)
-            if c is not None and 'validator' in ast.unparse(c.func):
+            c = test_awaited_call(w, n)
+            if c is not None and ('validator' in ast.unparse(c.func) or any(
+                    (s_.kind == 'param' and s_.expr == 'validator') or (s_.kind == 'expr' and 'validator' in ast.unparse(s_.expr)) for s_ in w.sources(n, c.func))):
                 vtests.append((n, c))
     rets = [r for r in returns(w) if r.ast.value is not None]
     R.need(rets, 'v1 _wait_for_data: no data-bearing return')
@@ -501,6 +506,14 @@ def _unpack_positions(cx, param):
 
 
 def _atom_eval(e, env):
+    if isinstance(e, ast.BoolOp):
+        vs = [_atom_eval(v, env) for v in e.values]
+        if any(v is None for v in vs):
+            return None
+        return all(vs) if isinstance(e.op, ast.And) else any(vs)
+    if isinstance(e, ast.UnaryOp) and isinstance(e.op, ast.Not):
+        v = _atom_eval(e.operand, env)
+        return None if v is None else (not v)
     if isinstance(e, ast.Compare) and len(e.ops) == 1 and isinstance(e.comparators[0], ast.Constant) \
             and e.comparators[0].value is None:
         t = ast.unparse(e.left)
@@ -522,7 +535,7 @@ def _required_tests(cx, atoms, R, oid, want='or'):
     found = False
     # (a) through a variable
     for n in cx.cfg.nodes:
-        if n.kind == 'test' and isinstance(n.ast, ast.Name):
+        if n.kind == 'test' and isinstance(n.ast, ast.Name) and isinstance(n.stmt, ast.If) and n.stmt.test is n.ast:
             for s in cx.sources(n, n.ast):
                 if s.kind == 'expr' and any(a in ast.unparse(s.expr) for a in atoms):
                     tbl = presence_table(s.expr, atoms)
@@ -543,10 +556,11 @@ def _required_tests(cx, atoms, R, oid, want='or'):
             clusters.setdefault(id(n.stmt), []).append(n)
     for nodes in clusters.values():
         stmt = nodes[0].stmt
-        txt = ast.unparse(stmt.test)
+        whole = inline_ast(cx, stmt.test)        # hoisted sub-conditions (`is_signed = sig.signature_info is not None`) read back
+        txt = ast.unparse(whole)
         if not any(a in txt for a in atoms):
             continue
-        if presence_table(stmt.test, atoms) is None:
+        if presence_table(whole, atoms) is None:
             continue
         found = True
         ids = {n.id for n in nodes}
@@ -557,7 +571,7 @@ def _required_tests(cx, atoms, R, oid, want='or'):
             env = dict(zip(atoms, combo))
             cur = first
             for _ in range(len(nodes) + 1):
-                v = _atom_eval(cur.ast, env)
+                v = _atom_eval(inline_ast(cx, cur.ast), env)
                 if v is None:
                     okshape = False
                     break
@@ -573,7 +587,7 @@ def _required_tests(cx, atoms, R, oid, want='or'):
         if not okshape:
             raise AnalysisError(f'{cx.qual}: cannot evaluate presence test `{txt}`')
         inst = f'{cx.qual} :: validation-required condition `{txt}`'
-        tbl = presence_table(stmt.test, atoms)
+        tbl = presence_table(whole, atoms)
         if tbl != {combo: any(combo) for combo in tbl}:
             R.fail(oid, inst, cx.qual, stmt.test, 'validation-required condition is not "any of %s present"' % atoms, site(cx, stmt.test))
         else:
@@ -595,7 +609,7 @@ def _digest_gate(R, oid, top, req_tests, task_name):
     digest_tests = []
     for n in top.cfg.nodes:
         if n.kind == 'test':
-            c = awaited_call(n.ast)
+            c = test_awaited_call(top, n)
             if c is not None and ast.unparse(c.func).endswith('params_sha256_checker'):
                 digest_tests.append(n)
     inst = f'{top.qual} :: parameters-digest gate'
